@@ -44,7 +44,7 @@ NOT_APPLICABLE = {
 }
 
 # /repo commits that add guarded hooks (cfg log4rs_verif)
-HOOK_COMMITS = ['5a2703e', '057fc64', '8991438', 'db83ae1', 'e6cb540', '32ad153', 'e8650e2', '576c8c7', '543b0d5', '0f2b23c', '0e5799d', '5cc9e68', '86dd40b', '7b40c7c']
+HOOK_COMMITS = ['5a2703e', '057fc64', '8991438', 'db83ae1', 'e6cb540', '32ad153', 'e8650e2', '576c8c7', '543b0d5', '0f2b23c', '0e5799d', '5cc9e68', '86dd40b', '7b40c7c', '1e620db', 'f1a4822', 'f6a74ef', '311bbd6', '0315d07', '053d572']
 
 PROPS["C03"] = dict(
     functions=[
@@ -93,6 +93,8 @@ PROPS["C03"] = dict(
 BT_LOOPS = [(r"drop_glue::<\[std::backtrace::Backtrace(Symbol|Frame)\]>", 0, 1),
             # "custom boxed error" candidates of an io::Error drop include io::Error itself: without a bound the
             # phantom drop recurses to the harness bound at every drop site
+            # the candidates of a phantom `Box<dyn ..>` drop include every type with a vtable, e.g. RightAlignWriter and its buffer
+            (r"drop_glue::<\[log4rs::encode::pattern::BufferedOutput\]>", 0, 1),
             (r"^std::ptr::drop_glue::<std::io::Error>$", None, 2),
             (r"^<core::io::error::repr::Repr as std::ops::Drop>::drop$", None, 2)]
 
@@ -211,6 +213,10 @@ PROPS["C01"] = dict(
 )
 
 _max = dict(timeout=1500, mem_gb=10)
+def SHAPE_REC(depth):
+    return [(r"^log4rs::ConfiguredLogger::max_log_level$", None, depth),
+            (r"^log4rs::verif_hooks::Tree::from_shape::build$", None, depth),
+            (r"^std::ptr::drop_glue::<log4rs::ConfiguredLogger>$", None, 2)]
 PROPS["C02"] = dict(
     functions=["log4rs::ConfiguredLogger::max_log_level", "log4rs::ConfiguredLogger::find", "log4rs::ConfiguredLogger::enabled",
                "log4rs::ConfiguredLogger::add"],
@@ -226,6 +232,13 @@ PROPS["C02"] = dict(
         H("c01_tree::max_a", instance="root + a", symbolic="all levels", bound="unwind 6, recursion 2", unwindset=TREE_REC(1), **_max),
         H("c01_tree::max_a_witness", kind="witness", unwindset=TREE_REC(1), **_max),
         H("c01_tree::max_ab", instance="root + a::b (implied a)", symbolic="all levels", bound="unwind 6, recursion 3", unwindset=TREE_REC(2), **_max),
+        # max_log_level() on trees assembled node by node (Tree::from_shape): several declared loggers
+        H("c02_max::max_chain3", instance="root - a - a::b (all declared)", symbolic="3 levels", bound="unwind 8, recursion 3", unwindset=SHAPE_REC(3), **_max),
+        H("c02_max::max_chain3_witness", kind="witness", unwindset=SHAPE_REC(3), **_max),
+        H("c02_max::max_fork", instance="root - {a, b}", symbolic="3 levels", bound="unwind 8, recursion 2", unwindset=SHAPE_REC(2), **_max),
+        H("c02_max::max_chain4", tier="thorough", instance="root - a - a::b - a::b::c", symbolic="4 levels", bound="unwind 8, recursion 4", unwindset=SHAPE_REC(4), **_max),
+        H("c02_max::max_fork_deep", tier="thorough", instance="root - {a - a::c, b - b::d}", symbolic="5 levels", bound="unwind 8, recursion 3", unwindset=SHAPE_REC(3), **_max),
+        H("c02_max::max_bush", tier="thorough", instance="root - {a - {a::c, a::d}, b - b::e}", symbolic="6 levels", bound="unwind 8, recursion 3", unwindset=SHAPE_REC(3), timeout=3600, mem_gb=14),
         # enabled() on the routing instances
         H("c01_tree::tree_a", instance="enabled() on declared: a; " + _T_SMALL, symbolic=_tree_sym, bound="unwind 9", unwindset=TREE_REC(1), **_tree),
         H("c01_tree::tree_a_ab", tier="thorough", instance="enabled() on declared: a, a::b", symbolic=_tree_sym, bound="unwind 9", unwindset=TREE_REC(2), **_tree),
@@ -475,13 +488,15 @@ PROPS["C17"] = dict(
 # ------------------------------------------------------------------------------------------
 # the width writers call each other through `&mut dyn encode::Write`; per-function recursion bounds keep
 # the fan-out at the nesting depth of the instance (+1); their unwinding assertions stay on
-WRITE_REC = [(r"as std::io::Write>::(flush|write|write_all|write_fmt)$", None, 3),
+WRITE_REC = [(r"as std::io::Write>::flush$", None, 1),  # never called by the code under check: only reached from phantom drops
+             (r"as std::io::Write>::(write|write_all|write_fmt)$", None, 3),
              (r"as log4rs::encode::Write>::set_style$", None, 3),
              (r"^log4rs::encode::pattern::Chunk::encode$", None, 2),
              (r"^log4rs::encode::pattern::FormattedChunk::encode$", None, 2)]
-SINK_LOOPS = [(r"^<(c12_json::BigSink|c10_width::Sink|c09_pattern::Rec) as std::io::Write>::write", "*", 64),
+SINK_LOOPS = [(r"^<c12_json::BigSink as std::io::Write>::write", "*", 64),
+              (r"^<(c10_width::Sink|c09_pattern::Rec) as std::io::Write>::write", "*", 20),
               (r"^c12_json::Out::", "*", 64), (r"^(c12_json|c09_pattern|c10_width|c11_safe)::body", "*", 300)]
-_p = dict(timeout=1800, mem_gb=12, unwindset=WRITE_REC + SINK_LOOPS)
+_p = dict(timeout=1800, mem_gb=12, unwindset=WRITE_REC + SINK_LOOPS + BT_LOOPS)
 _pat_assumptions = [
     "E7: thread name / system thread id are constants under the guard (std's thread::current() and the TID thread-local cannot be "
     "compiled by Kani); thread_id::get, process::id, log_mdc::get, Local::now / Utc::now and the Local zone are stubbed (fixed values)",
@@ -507,9 +522,9 @@ PROPS["C10"] = dict(
         H("c10_width::w_max", instance="max only", symbolic="text, split, M", bound="unwind 8", **_p),
         H("c10_width::w_left_both", instance="left, min+max, fill 'é'", symbolic="text, split, m <= M", bound="unwind 8", **_p),
         H("c10_width::w_right_both", instance="right, min+max, fill '€'", symbolic="text, split, m <= M", bound="unwind 8", **_p),
-        H("c10_width::w_right_both_brace", tier="thorough", instance="right, min+max, fill '{', 3 pieces", symbolic="text, splits, m <= M", bound="unwind 8", timeout=3600, mem_gb=14, unwindset=WRITE_REC + SINK_LOOPS),
-        H("c10_width::w_max_short", tier="thorough", instance="max only, sink accepts a solver-chosen prefix per write", symbolic="text, M, short-write lengths", bound="unwind 8", timeout=3600, mem_gb=14, unwindset=WRITE_REC + SINK_LOOPS),
-        H("c10_width::w_left_both_short", tier="thorough", instance="left, min+max, short writes", symbolic="text, m <= M, short-write lengths", bound="unwind 8", timeout=3600, mem_gb=14, unwindset=WRITE_REC + SINK_LOOPS),
+        H("c10_width::w_right_both_brace", tier="thorough", instance="right, min+max, fill '{', 3 pieces", symbolic="text, splits, m <= M", bound="unwind 8", timeout=3600, mem_gb=14, unwindset=WRITE_REC + SINK_LOOPS + BT_LOOPS),
+        H("c10_width::w_max_short", tier="thorough", instance="max only, sink accepts a solver-chosen prefix per write", symbolic="text, M, short-write lengths", bound="unwind 8", timeout=3600, mem_gb=14, unwindset=WRITE_REC + SINK_LOOPS + BT_LOOPS),
+        H("c10_width::w_left_both_short", tier="thorough", instance="left, min+max, short writes", symbolic="text, m <= M, short-write lengths", bound="unwind 8", timeout=3600, mem_gb=14, unwindset=WRITE_REC + SINK_LOOPS + BT_LOOPS),
         H("c10_width::w_left_both_4byte", tier="thorough", instance="left, min+max, 4-byte scalars allowed, 3 pieces", symbolic="text, splits, m <= M", bound="unwind 10", timeout=3600, mem_gb=14),
     ],
 )
@@ -531,10 +546,10 @@ PROPS["C11"] = dict(
         H("c11_safe::width_20_digits_witness", kind="witness", **_p),
         H("c11_safe::maxwidth_22_digits", instance="{m:.999999999999999999999<d>}", symbolic="last digit", bound="unwind 28", **_p),
         H("c11_safe::width_small_encode", instance="ab{m:><d>.3}, encoded", symbolic="the width digit", bound="unwind 12", **_p),
-        H("c11_safe::date_bad_directive", tier="thorough", instance="ab{d(%Q)}, encoded (class of the fixed finding)", symbolic="-", bound="unwind 12", timeout=3600, mem_gb=14, unwindset=WRITE_REC + SINK_LOOPS),
+        H("c11_safe::date_bad_directive", tier="thorough", instance="ab{d(%Q)}, encoded (class of the fixed finding)", symbolic="-", bound="unwind 12", timeout=3600, mem_gb=14, unwindset=WRITE_REC + SINK_LOOPS + BT_LOOPS),
         H("c11_safe::unknown_formatter", instance="ab{x}cd, encoded", symbolic="-", bound="unwind 12", **_p),
         H("c11_safe::unclosed", instance="ab{m, encoded", symbolic="-", bound="unwind 12", **_p),
-        H("c11_safe::width_20_digits_encode", tier="thorough", instance="ab{m:18446744073709551619}, encoded: ERROR marker after the prefix", symbolic="-", bound="unwind 28", timeout=3600, mem_gb=14, unwindset=WRITE_REC + SINK_LOOPS),
+        H("c11_safe::width_20_digits_encode", tier="thorough", instance="ab{m:18446744073709551619}, encoded: ERROR marker after the prefix", symbolic="-", bound="unwind 28", timeout=3600, mem_gb=14, unwindset=WRITE_REC + SINK_LOOPS + BT_LOOPS),
         H("c11_safe::one_free_syntax_char", tier="thorough", instance="a<c>m}b, encoded", symbolic="c over 12 syntax characters", bound="unwind 12", timeout=3600, mem_gb=14),
     ],
 )
@@ -563,6 +578,17 @@ PROPS["C09"] = dict(
         H("c09_pattern::pat_nested", tier="thorough", instance="{([{({m})}])}{t}", symbolic="record fields", bound="unwind 12", timeout=3600, mem_gb=14),
         H("c09_pattern::pat_debug_release", tier="thorough", instance="{D(D{m})}{R(R{t})}", symbolic="record fields", bound="unwind 12", timeout=3600, mem_gb=14),
         H("c09_pattern::pat_date", tier="thorough", instance="{d(%Y)(utc)} {date(%Y-%m-%d)(local)} {m}", symbolic="record fields", bound="unwind 12", timeout=3600, mem_gb=14),
+    ],
+)
+
+PROPS["C09U"] = dict(
+    functions=["Chunk::encode", "FormattedChunk::encode (Level, Message, Module, File, Line, Target, Newline, Thread, SystemThreadId, Highlight, Debug, Release)"],
+    bounds="", outside="", assumptions=[], level_text="", level_note="",
+    harnesses=[
+        H("c09_units::unit_record_fields", instance="one formatter chunk on the stack: level / message / module / file / line / target", symbolic="formatter kind, level, text of 0..2 units, presence of module/file/line", bound="unwind 8", **_p),
+        H("c09_units::unit_record_fields_witness", kind="witness", **_p),
+        H("c09_units::unit_fixed", instance="newline / thread / system thread id / empty highlight, debug, release groups", symbolic="formatter kind, level", bound="unwind 8", **_p),
+        H("c09_units::unit_fixed_witness", kind="witness", **_p),
     ],
 )
 
@@ -637,7 +663,8 @@ PROPS["C13"]["outside"] = "the builder part (duplicate detection, dangling refer
 # C18: add the console policy harnesses
 PROPS["C18"]["functions"] += ["COLOR_MODE initialiser", "console::imp::Writer::{stdout,stderr}", "ConsoleAppenderBuilder::build"]
 PROPS["C18"]["bounds"] += "; (a) NO_COLOR / CLICOLOR / CLICOLOR_FORCE each unset, '0' or '1', isatty per descriptor, target, tty_only: all combinations as solver variables"
-PROPS["C18"]["outside"] = "bytes arriving on a real terminal; (c) highlight pairing is checked with C09's pat_highlight"
+PROPS["C18"]["outside"] = ("bytes arriving on a real terminal; (c) 'each highlighted group followed by a reset' is decided for an EMPTY highlight group at every "
+                           "level (c09_units::one_highlight); highlight groups with content and nested highlights are not (their chunk list lives on the heap, DESIGN.md 9.8)")
 PROPS["C18"]["assumptions"] += ["E6 environment table; E8: libc::isatty / STD*_FILENO are shadowed by a stand-in answered by the harness (foreign functions cannot be stubbed)",
                                 "NO_COLOR=0 and CLICOLOR_FORCE=0 are outside the statement: the colour assertion is skipped for them"]
 PROPS["C18"]["harnesses"] += [
@@ -681,7 +708,7 @@ PROPS["C08"] = dict(
 # What is claimed.  Harness groups that the solver could not finish within the caps are kept in
 # the harness crate (and below, under PENDING) for the record, but are not part of any check.
 PENDING = {}
-for _pid in ["C04", "C05", "C19", "C09", "C10", "C12", "C15"]:
+for _pid in ["C04", "C05", "C19", "C09", "C09U", "C10", "C12", "C15"]:
     PENDING[_pid] = PROPS.pop(_pid)
 
 # C06 / C17: only the trigger units fit; the appender-level harnesses (c05_rolling::*) did not
@@ -717,9 +744,97 @@ PROPS["C11"]["outside"] = "encoding, every other pattern (free pattern text and 
 NOT_APPLICABLE.update({
     "C04": "RollingFileAppender/FileAppender::append over a file model did not fit CBMC: a single append ran 20 min of symbolic execution and 8-12 GB with std's BufWriter and also with a small array-backed BufWriter model under the guard (heap-resident lengths, io::Error drop fan-out); no meaningful smaller unit of C04 exists (DESIGN.md 9.6)",
     "C05": "same measurement as C04: the appender's append path is out of reach; the pieces that fit are claimed elsewhere (rollers: C07, trigger/policy units: C06, C17); the stream law of C05 itself is not decided",
-    "C09": "PatternEncoder::encode keeps its chunks in a Vec<Chunk>: heap-stored enum tags are undecided for the symbolic executor, so every element explores every formatter with its writers; the smallest pattern harness ({l} {m} ..) was still in symbolic execution after 15 min / 4 GB (DESIGN.md 9.6)",
-    "C10": "see evidence of the last measurement in DESIGN.md 9.6: the width writers recurse through &mut dyn encode::Write; with the chunk list on the heap the run exhausted 9 GB in symbolic execution; the stack-built variant is recorded there",
-    "C12": "JsonEncoder::encode_inner (serde_json + chrono formatting + fmt machinery over heap buffers) was still in symbolic execution after 15 min / 4 GB for a 1-unit message (DESIGN.md 9.6)",
+    "C12": "JsonEncoder::encode_inner (serde_json + chrono formatting + fmt machinery over heap buffers): a 1-unit message was still in symbolic execution after 15 min / 4 GB, and after 30 min / 5.3 GB once the sink could no longer fail (DESIGN.md 9.8 rule 20): serde_json's escape loop writes slices with symbolic bounds, each of which unrolls the sink's copy loop to its bound; no smaller unit of C12 separates from serde_json (DESIGN.md 9.6, 9.8)",
     "C15": "the public path Logger::new_with_err_handler -> Log::log -> Handle::set_config over the ArcSwap and container models (configuration assembled without the builder, two appenders, one logger, callbacks as trait objects, recursion of the tree and of its drop bounded): 30 min / 9 GB without an answer, twice (DESIGN.md 9.6); the reloader half needs serde_yaml and a thread",
     "C19": "expand_env_vars builds Strings on the heap; every copy has a solver-side symbolic size: 20 s of symbolic execution, then > 12 GB in the SSA-to-SAT conversion for the 12-byte path '/a/$ENV{A}/b' (DESIGN.md 9.6); the defect found by the native twin is fixed",
 })
+
+
+# ---- C09 / C10: unit-level claims (second measurement round, DESIGN.md 9.8) -----------------------
+# What made these fit: (1) the instance parameter that selects code (formatter kind, which widths
+# exist, scalar byte lengths) is a constant of the harness, so the executor follows one arm;
+# (2) the capturing sinks override write_all and never fail, so no phantom io::Error is created and
+# later dropped through the `dyn Error` fan-out; (3) byte loops get bounds derived from the instance.
+WRITE_ALL_LOOP = [(r"^<log4rs::.* as std::io::Write>::write_all$", "*", 3)]  # complete-writing sink: one write, at most one more that is swallowed past the limit
+_u = dict(timeout=900, mem_gb=10, unwindset=WRITE_REC + SINK_LOOPS + BT_LOOPS)
+_f = dict(timeout=1800, mem_gb=12, unwindset=[(r"^<c10_width::Sink as std::io::Write>::write", "*", 5)] + WRITE_REC + SINK_LOOPS + BT_LOOPS + WRITE_ALL_LOOP)
+_ft = dict(_f, tier="thorough", timeout=5400, mem_gb=16)
+_fs = dict(_ft, unwindset=[(r"^<c10_width::Sink as std::io::Write>::write", "*", 5)] + WRITE_REC + SINK_LOOPS + BT_LOOPS)  # short writes: write_all loops up to the piece length
+_s = dict(timeout=900, mem_gb=10)
+
+_one = [("level", "{l}: the level's name"), ("message", "{m}: the message arguments"), ("module", "{M}: module path or ???"),
+        ("file", "{f}: file or ???"), ("line", "{L}: line or ???"), ("target", "{t}: the target"), ("newline", "{n}"),
+        ("thread", "{T}: thread name (constant stand-in under the guard)"), ("tid", "{i}: system thread id (constant stand-in)"),
+        ("highlight", "{h()}: one style call before and one reset after for Error/Warn/Info/Trace, none for Debug; no text"),
+        ("debug", "{D()}: empty group"), ("release", "{R()}: empty group")]
+PROPS["C09"] = dict(
+    functions=["FormattedChunk::encode - arms Level, Message, Module, File, Line, Target, Newline, Thread, SystemThreadId, Highlight, Debug, Release",
+               "the default io::Write::{write_fmt, write_all} and the core::fmt machinery they drive (executed for real)"],
+    bounds="one formatter per harness (the formatter is an instance parameter); solver variables: record level (5), message and target "
+           "text of 0..2 units over {a, '{', '\\', e-acute} (0-4 bytes), presence of module path / file / line; unwind 8",
+    outside="EVERYTHING that makes a pattern out of formatters is outside this claim: the parser (text, escapes, arguments, nesting), the "
+            "Piece -> Chunk table (names, aliases, arity checks), the in-order loop of PatternEncoder::encode over its heap-stored chunk "
+            "list, group nesting with content, and the formatters date / MDC / process id / thread id (their inputs are stubs). The "
+            "whole-pattern harnesses (c09_pattern::pat_*) are kept in the harness crate and run natively, but did not fit the solver: "
+            "the chunk list lives on the heap and the enum tags are read through unions, so every element explores every formatter "
+            "(DESIGN.md 9.6, 9.8). Also outside: longer texts, other scalars.",
+    assumptions=_pat_assumptions + ["hook verif_formatter_direct builds one FormattedChunk on the stack and runs the real FormattedChunk::encode on it",
+                                    "the sink's write_all is overridden (takes everything, never fails); the default write_fmt is the real one"],
+    level_text="Bounded model checking of each record-field formatter of the real FormattedChunk::encode: for every level, every text "
+               "within the bounds and every presence pattern of the optional fields, the bytes written equal the formatter's documented "
+               "value (??? for absent module / file / line) and the highlight formatter issues exactly the documented style calls.",
+    level_note="Trusted: Kani/CBMC/CaDiCaL. PARTIAL: decides 'each formatter's value for the record' only; 'in-order concatenation over a "
+               "whole pattern' is not decided by any solver run (see outside).",
+    design_ref="DESIGN.md section 5 (C09) and 9.8",
+    harnesses=[H("c09_units::one_%s" % k, instance=txt, symbolic="level, message/target text, presence of optional fields", bound="unwind 8", **_u) for k, txt in _one]
+              + [H("c09_units::one_level_witness", kind="witness", **_u), H("c09_units::one_highlight_witness", kind="witness", **_u)],
+)
+
+PROPS["C10"] = dict(
+    functions=["MaxWidthWriter::write", "LeftAlignWriter::{write,finish}", "RightAlignWriter::{write,set_style,finish}", "is_char_boundary", "char_starts",
+               "the default io::Write::{write_all, write_fmt} over these writers (executed for real)", "Parser::{parameters, integer, consume}",
+               ],
+    bounds="writers: text of 2 or 3 scalars whose byte lengths (1-3) and piece boundaries are instance parameters; solver variables: every "
+           "byte of every scalar (any lead / continuation byte of its length class), m or M in 0..5; fills ' ' and '~'; both alignments; "
+           "min only / max only. Spec parser: ':' + 5 (thorough: 7) free bytes over {< > . 0 1 9 * } x :} + '}', "
+           "also behind a 2-, 3- or 4-byte fill character",
+    outside="BOTH widths at once (LeftAlignWriter / RightAlignWriter over MaxWidthWriter): even one scalar with m <= M < 4 exhausted 12 GB after 15 min, also with Chunk::encode out of static reach "
+            "(every padding character goes through the real write_fmt of the inner MaxWidthWriter, whose phantom WriteZero errors are dropped through "
+            "the dyn-Error fan-out; DESIGN.md 9.8) - that composition is exercised by the native twins only; nested width specs (the law "
+            "'composes through nested groups'), 4-byte scalars and combining marks in the text, texts of more than "
+            "3 scalars, widths above 5, m > M, other write splittings than the instance's, the sink accepting short writes (one thorough "
+            "instance only). f_* instances feed the writer composition through the hook verif_width_writers, which builds the same six "
+            "compositions as Chunk::encode; Chunk::encode's own selection of the composition did not fit (g_* instances, rule 19 of DESIGN.md 9.8) and is exercised by the native twins only",
+    assumptions=["hook verif_width_writers composes MaxWidthWriter / LeftAlignWriter / RightAlignWriter exactly as the six arms of Chunk::encode do and feeds it one write_all per piece",
+                 "hook verif_parse_parameters runs the private Parser::parameters on a spec text",
+                 "the sink records bytes, never fails; its write_all is overridden (no phantom WriteZero error)",
+                 "Backtrace::capture -> disabled; <anyhow::Error as Drop>::drop -> no-op"],
+    level_text="Bounded model checking of the real width / alignment writers and of the spec parser: for every byte content, m and M within "
+               "the bounds the bytes that reach the sink equal 'the first M scalars, then padded with the fill to m scalars on the chosen "
+               "side' byte for byte (hence valid UTF-8, at most M characters, no scalar split); and for every spec text within the bounds "
+               "Parser::parameters yields exactly the fill, alignment and widths the documented grammar assigns and stops where it says.",
+    level_note="Trusted: Kani/CBMC/CaDiCaL. Scalar byte lengths and piece boundaries are enumerated instances, not solver variables.",
+    design_ref="DESIGN.md section 5 (C10) and 9.8",
+    harnesses=[
+        H("c10_spec::spec_free5", instance="':' + 5 free bytes + '}'", symbolic="5 bytes over {< > . 0 1 9 * } x :}", bound="unwind 10", **_s),
+        H("c10_spec::spec_free5_witness", kind="witness", **_s),
+        H("c10_spec::spec_fill2_free4", instance="':' + e-acute + 4 free bytes + '}'", symbolic="4 bytes over the alphabet", bound="unwind 10", **_s),
+        H("c10_spec::spec_fill3_free4", tier="thorough", instance="':' + euro sign + 4 free bytes + '}'", symbolic="4 bytes", bound="unwind 10", **_s),
+        H("c10_spec::spec_fill4_free3", tier="thorough", instance="':' + U+1F600 + 3 free bytes + '}'", symbolic="3 bytes", bound="unwind 10", **_s),
+        H("c10_spec::spec_free7", tier="thorough", instance="':' + 7 free bytes + '}'", symbolic="7 bytes", bound="unwind 12", timeout=3600, mem_gb=14),
+        H("c10_width::f_max_21", instance="MaxWidthWriter; scalars of 2,1 bytes; pieces 1|1|0", symbolic="bytes, M", bound="unwind 5", **_f),
+        H("c10_width::f_max_21_witness", kind="witness", **_f),
+        H("c10_width::f_left_min_12", instance="LeftAlignWriter, fill ' '; scalars 1,2; pieces 1|1|0", symbolic="bytes, m", bound="unwind 5", **_f),
+        H("c10_width::f_right_min_21", instance="RightAlignWriter, fill '~'; scalars 2,1; pieces 0|1|1", symbolic="bytes, m", bound="unwind 5", **_f),
+        H("c10_width::f_max_123", instance="MaxWidthWriter; scalars 1,2,3; pieces 1|1|1", symbolic="bytes, M", bound="unwind 5", **_f),
+        H("c10_width::f_max_321", instance="MaxWidthWriter; scalars 3,2,1; pieces 1|1|1", symbolic="bytes, M", bound="unwind 5", **_ft),
+        H("c10_width::f_left_min_213", instance="LeftAlignWriter, fill e-acute; scalars 2,1,3; pieces 1|2|0", symbolic="bytes, m", bound="unwind 5", **_ft),
+        H("c10_width::f_max_short_21", instance="MaxWidthWriter over a sink that accepts a solver-chosen prefix of every write; scalars 2,1 in one piece", symbolic="bytes, M, accepted lengths", bound="unwind 5", **_fs),
+    ],
+)
+
+# C18 (c): the highlight formatter's style / reset pairing (same harness as C09's one_highlight)
+PROPS["C18"]["functions"] += ["FormattedChunk::encode (Highlight arm)"]
+PROPS["C18"]["bounds"] += "; (c) an empty {h()} group at every record level"
+PROPS["C18"]["harnesses"].append(H("c09_units::one_highlight", instance="{h()}: exactly one style call before and one reset after for Error / Warn / Info / Trace, none for Debug", symbolic="record level", bound="unwind 8", **_u))
+
